@@ -19,7 +19,7 @@ order of evaluation:
 the mechanism key if *every* difference is explained by one of them, else None:
   * same tables, same columns, same metadata; same row ids except in summary tables that group by an
     affected column (their rows, group-by cells and formulas follow the values of that column);
-  * every other differing cell is in a formula column;
+  * every other differing cell is in a formula column (or a data column with a trigger formula);
   * the static reference graph (built from the formula texts) has a strongly connected component that
     qualifies for a mechanism (contains a catching formula / contains a lookup-key or sort-key edge);
   * at least one differing cell lies in a column of such a component and holds CircularRefError on
@@ -78,7 +78,7 @@ def graph(cols):
   for (t, c), info in cols.items():
     f = info['formula']
     out = set()
-    if f and (info['isFormula']):
+    if f:       # formula columns, and data columns with a trigger formula (its reads are dependencies while it runs)
       for name in CELL_REF.findall(f):
         if (t, name) in cols:
           out.add(((t, name), 'cell'))
@@ -242,7 +242,7 @@ def classify(A, B):
       if d[0] in affected_tables:
         continue
       info = cols.get(key)
-      if info is None or not info['isFormula'] or key not in reach:
+      if info is None or not (info['isFormula'] or info['formula']) or key not in reach:
         ok = False
         break
     if ok:
